@@ -33,7 +33,7 @@ class LoopSpec:
 
   def __init__(self, invariants, havoc=None, keep=None, decreases=None,
                ghost_step=None, unroll=False, ghost=None, after=None,
-               before=None):
+               before=None, body_start=None):
     self.invariants = list(invariants)   # [Clause] ; fn(ctx, k)
     self.havoc = havoc      # extra names to havoc
     self.keep = keep        # names NOT to havoc although syntactically assigned
@@ -41,6 +41,7 @@ class LoopSpec:
     self.ghost_step = ghost_step  # callable(ex, ctx, k): ghost code after the body
     self.ghost = ghost or []      # ghost variables the ghost code updates
     self.after = after            # callable(ex, ctx): ghost code at loop exit
+    self.body_start = body_start  # callable(ex, ctx, k): ghost code at the start of an iteration
     self.before = before          # callable(ex, ctx): ghost code before the loop
     self.unroll = unroll
 
